@@ -96,8 +96,9 @@ pub fn check(scn: &Scenario, stats: &mut Stats) -> Vec<Violation> {
         let analyzer_called: BTreeSet<String> = s.nodes.iter().filter_map(|n| n.calls_to.clone()).collect();
         if text_ok && o.parse_errors == 0 {
             let called: BTreeSet<String> = rp.called_labels().into_iter().collect();
+            let maybe: BTreeSet<String> = rp.maybe_handler_labels.iter().cloned().collect();
             stats.inc("F1_checked_against_source_text");
-            for l in &called {
+            for l in called.iter().filter(|l| !maybe.contains(*l)) {
                 let holders: Vec<usize> = s.nodes.iter().enumerate().filter(|(_, n)| n.labels.contains(l)).map(|(i, _)| i).collect();
                 if holders.len() != 1 || !s.nodes[holders[0]].is_func_entry {
                     out.push(viol("F1:call-target-is-function", "F1:call-target-not-a-function".into(), format!("entropy {e}: label `{l}` is named by a call (or installed as interrupt handler) but is carried by {:?}, not by exactly one function entry", holders.iter().map(|i| at(s, *i)).collect::<Vec<_>>())));
@@ -105,7 +106,7 @@ pub fn check(scn: &Scenario, stats: &mut Stats) -> Vec<Violation> {
                 }
             }
             for n in s.nodes.iter().filter(|n| n.is_func_entry) {
-                if !n.labels.iter().any(|l| called.contains(l)) {
+                if !n.labels.iter().any(|l| called.contains(l) || maybe.contains(l)) {
                     out.push(viol("F1:function-is-call-target", "F1:function-without-call".into(), format!("entropy {e}: function entry with labels {:?} but no call names any of them (called: {called:?})", n.labels)));
                     return out;
                 }
